@@ -5,13 +5,11 @@
   the data — preserves the agreement with the reference map (`reopen_keep`, `reopen_rebuild`).
 -/
 import GoBeans.Lemmas.Store
+import GoBeans.Model.LogView
 set_option linter.unusedSimpArgs false
 set_option linter.unusedVariables false
 namespace StoreLemmas
 open Store Spec
-
-/-- the last record of key `k` in a log -/
-def lastOf (k : Key) (l : List (Pos × Rec)) : Option (Pos × Rec) := (l.filter (fun p => p.2.key = k)).getLast?
 
 theorem lastOf_nil (k : Key) : lastOf k [] = none := rfl
 
